@@ -108,6 +108,14 @@ def run_case(case, opts):
                     p.insert(rng.randrange(len(p) + 1), ["nop", []])
                 if any(m[0] != "nop" for m in p):
                     perms.append(p)
+            try:
+                from pddl_plus_parser.models import JointActionCall
+                jc = JointActionCall([ActionCall(name=n, grounded_parameters=list(a)) for n, a in members])
+                ev.append({"c": "JointCallProps", "members": members,
+                           "out": {"count": jc.action_count, "operational": [[a.name, list(a.parameters)] for a in jc.operational_actions],
+                                   "params": list(jc.joint_parameters)}})
+            except Exception as e:  # noqa: BLE001
+                ev.append({"c": "JointCallProps", "members": members, "out": {"count": -1, "operational": [], "params": [], "exc": pylib.exc_name(e)}})
             for p in perms:
                 h = fresh("j")
                 try:
